@@ -2504,7 +2504,8 @@ class FactorizedFluxModel(
         is the total set of parameter names for all flux profiles of this
         FactorizedFluxModel instance.
         """
-        pnames = list(super(FactorizedFluxModel, type(self)).param_names)
+        pnames = list(
+            super(FactorizedFluxModel, type(self)).param_names.fget(self))
         pnames += self._spatial_profile.param_names
         pnames += self._energy_profile.param_names
         pnames += self._time_profile.param_names
